@@ -34,6 +34,8 @@ def ev(v, asg):
         return v[1]
     if t == "tup":
         return tuple(v[1])
+    if t == "sub1":          # attribute of THE one solution of a nested an(entity(y, y.ix == i)); the value was read off the world
+        return v[4]
     o = asg[v[1]]
     if o is None:
         raise Unbound()
@@ -149,12 +151,46 @@ def shape_tags(c, acc=None, neg=0):
 
 
 # ------------------------------------------------------------------------------------------------ builder
+CUR_WORLD = None      # set by multi.build: the built world the current query ranges over (for "sub1" operands)
+
+
+def with_single_solution_subquery(rng, cond, world):
+    """Replace some numeric literal operands of comparisons by `an(entity(y, y.ix == i)).a`: a nested query with exactly
+    one solution, so the condition stays an ordinary condition over the outer variables (returns the number replaced)."""
+    n = 0
+
+    def go(c):
+        nonlocal n
+        if c[0] == "cmp":
+            for i in (2, 3):
+                if c[i][0] == "lit" and type(c[i][1]) is int and rng.random() < 0.6:
+                    kind = rng.choice([k for k in "PQ" if world.get(k)] or [None])
+                    if kind is None:
+                        continue
+                    o = rng.choice(world[kind])
+                    attr = rng.choice(["a", "b"])
+                    val = getattr(o, attr)
+                    if type(val) is int:
+                        c[i] = ["sub1", kind, o.ix, attr, val]
+                        n += 1
+        elif c[0] in ("and", "&", "or", "|", "not", "~"):
+            for s in c[1:]:
+                go(s)
+    go(cond)
+    return n
+
+
 def bval(v, xs):
     t = v[0]
     if t == "lit":
         return v[1]
     if t == "tup":
         return tuple(v[1])
+    if t == "sub1":
+        from entity_query_language import an, entity, let
+        pool = CUR_WORLD[v[1]]
+        y = let({"P": D.P, "Q": D.Q}[v[1]], pool)
+        return getattr(an(entity(y, y.ix == v[2])), v[3])
     o = xs[v[1]]
     for st in v[2]:
         k = st[0]
